@@ -157,7 +157,7 @@ def save_corpus(prop, seed, rp):
     if not isinstance(r, dict) or "ops" not in r or not (0 < len(r["ops"]) <= 700):
         return
     ops = [o.split(" ", 1)[1] if o.startswith("#") else o for o in r["ops"]]
-    if any(not o or o[0] not in "UMTNLXS" for o in ops) or sum(len(o) for o in ops) > 200000:
+    if any(not o or o[0] not in "UMTNLXSP" for o in ops) or sum(len(o) for o in ops) > 200000:
         return
     os.makedirs(os.path.dirname(dst), exist_ok=True)
     json.dump({"origin": "seed " + seed, "cfg": r.get("cfg") if r.get("cfg") != "std0" else "std", "ops": ops}, open(dst, "w"))
